@@ -123,7 +123,18 @@ def _classes():
         def _BinaryNode__post_assign_children(self, new_children):
             Faults.post(self, list(self.children), list(new_children), [c.parent for c in new_children if isinstance(c, BinaryNode)])
 
-    _CLASSES.update(Faults=Faults, FBin=FBin)
+    class VBin(FBin):
+        """user subclass with value semantics: nodes compare / hash by name.  The histories keep all names
+        distinct (equal-named twins make the unchanged setters pick the wrong node: list.index / dict keys
+        work on ==), so identity and equality coincide and the library must behave exactly as on FBin."""
+
+        def __eq__(self, other):
+            return isinstance(other, VBin) and self.name == other.name
+
+        def __hash__(self):
+            return hash(self.name)
+
+    _CLASSES.update(Faults=Faults, FBin=FBin, VBin=VBin)
     return _CLASSES
 
 
@@ -194,11 +205,21 @@ class _CallerList:
             cls.lst[:] = [Junk(), Junk(), Junk()]
 
 
+_LAST_TUPLE = [()]
+
+
 def _container(kind, items):
     if kind == "list":
         return _CallerList.load(items)
     if kind == "tuple":
-        return tuple(items)
+        # the SAME tuple object when the same items are passed again (repeated call / another node)
+        t = _LAST_TUPLE[0]
+        if len(t) == len(items) and len(t) > 0 and all(a is b for a, b in zip(t, items)):
+            return t
+        _LAST_TUPLE[0] = tuple(items)
+        return _LAST_TUPLE[0]
+    if kind == "gen":
+        return (x for x in items)        # a generator: iterable, not sized, no list/tuple/set
     if kind == "set":
         return set(items)
     return {i: x for i, x in enumerate(items)}.values()   # a dict view: iterable, sized, no list/tuple/set
@@ -270,7 +291,7 @@ def apply_op(cl, nodes, op):
         F.queue = [_fq(f) for f in op[3]]
         nodes[op[1]].extend(_CallerList.load([nodes[c] for c in op[2]]))
     elif k == "New":
-        FBin = cl["FBin"]
+        FBin = cl["cls"]
         obj = FBin.__new__(FBin)          # FBin(...) = __new__ + __init__; keep the object even if __init__ raises
         left, right, par = _arg(nodes, op[1]), _arg(nodes, op[2]), _arg(nodes, op[3])
         ch = _CallerList.load([_arg(nodes, a) for a in op[4]]) if op[4] else None
@@ -317,9 +338,11 @@ def run_history(case, battery_wanted=False):
     _CallerList.lst = []
     _CallerList.given = None
 
+    cl["cls"] = cl["VBin"] if case.get("cls") == "valeq" else cl["FBin"]
+
     def fresh():
         # int names (BinaryNode(1): name "1", val 1) and one extra attribute per node
-        nodes = [cl["FBin"](i, tag=7 * i + 1) for i in range(case["n"])]
+        nodes = [cl["cls"](i, tag=7 * i + 1) for i in range(case["n"])]
         _run_ops(cl, nodes, case["prefix"], None)
         return nodes
 
@@ -399,7 +422,14 @@ def run_impl(prop, case):
     from bigtree.globals import ASSERTIONS
     if not ASSERTIONS:
         raise RuntimeError("the harness process must run with the assertion checks on")
-    on = run_history(case, prop == "C20")
+    if not case["assert"] and prop != "C20":
+        # C11 / C02 with the checks switched off: the whole case runs in the child interpreter
+        from .. import noassert
+        if noassert.call("harness.engines.binary", "__assertions__"):
+            raise RuntimeError("the no-assertion child runs with the checks on")
+        on = noassert.call("harness.engines.binary", "run_history", case)
+    else:
+        on = run_history(case, prop == "C20")
     obs = {"pre": on["pre"], "pre_off": [], "on": on["branches"], "off": [[] for _ in on["branches"]],
            "lib_equal": True, "battery_items": 0}
     if prop == "C20":
@@ -427,7 +457,7 @@ def _carg(a):
 
 
 _FT = {"none": "NoFault", "pre": "PreFail", "post": "PostFail"}
-_CT = {"list": "CList", "tuple": "CTuple", "set": "CSet", "other": "COther"}
+_CT = {"list": "CList", "tuple": "CTuple", "set": "CSet", "other": "COther", "gen": "COther"}
 
 
 def _cop(op):
@@ -602,7 +632,7 @@ class Shadow:
                 return False
             return self.set_parent(op[1], op[2][1] if op[2][0] == "N" else None)
         if k == "SetChildren":
-            if op[2] == "other" or op[4] != "none" or any(a[0] == "Junk" for a in op[3]):
+            if op[2] in ("other", "gen") or op[4] != "none" or any(a[0] == "Junk" for a in op[3]):
                 return False
             return self.set_children(op[1], [a[1] if a[0] == "N" else None for a in op[3]])
         if k in ("SetLeft", "SetRight"):
@@ -706,10 +736,12 @@ def gen_case(rng, prop, fault_rate=0.1, invalid_rate=0.15, nmin=3, nmax=7, maxop
             cs = [rng.choice(cands + [None]) if cands else None, rng.choice(cands + [None]) if cands else None]
             if cs[0] is not None and cs[0] == cs[1]:
                 cs[1] = None
-        if rng.random() < 0.1:
+        if rng.random() < 0.12:
             cs = []
         args = [_A(c) for c in cs]
         cont = rng.choice(["list", "list", "tuple"])
+        if not cs:
+            cont = rng.choice(["list", "tuple", "set"])       # [] / () / set(): all accepted with the checks on
         if not valid:
             ch = rng.random()
             if ch < 0.12:
@@ -729,12 +761,14 @@ def gen_case(rng, prop, fault_rate=0.1, invalid_rate=0.15, nmin=3, nmax=7, maxop
                 if k:
                     args = [k[0], k[0]]
             elif ch < 0.95:
-                cont = "other"
+                cont = rng.choice(["other", "gen"])
             else:
                 cont = "set"
                 args = args[:1] if rng.random() < 0.7 else []
                 if args and rng.random() < 0.3:
                     args = [_junk(rng, hashable=True)]
+        if cont == "set" and len(args) > 1:
+            cont = "list"          # a set with several members: duplicates collapse and the order is hash order
         return cont, args
 
     weights = {
@@ -944,6 +978,7 @@ def op_universe(n, prop):
         if prop != "C20":
             ops.append(["SetChildren", p, "list", [], "post"])
             ops.append(["SetChildren", p, "other", [], "none"])
+            ops.append(["SetChildren", p, "gen", [["None"], ["None"]], "none"])
             for a in vals:
                 ops.append(["SetChildren", p, "list", [a], "none"])
                 ops.append(["SetChildren", p, "set", [a], "none"])
@@ -1040,8 +1075,29 @@ def generate(prop, rng, tier):
         # the two- and three-node scopes are cheap enough for every run
         yield from enumerate_cases(prop, sizes=(2, 3), per_case=80)
     for i in range(count):
-        c = gen_case(rng, prop, fault_rate=fr, invalid_rate=ir, only_valid=(prop == "C20"))
+        if prop != "C20" and rng.random() < 0.2:
+            # the same invariants with BIGTREE_CONF_ASSERTIONS="": histories no type/loop check would reject
+            # (hook failures included), run in the no-assertion child and compared with the model under
+            # `assertions := false`
+            c = gen_case(rng, prop, fault_rate=max(fr, 0.15), invalid_rate=0.0, only_valid=True)
+            c["assert"] = False
+            c["stratum"] = "noassert/" + c["stratum"]
+        else:
+            c = gen_case(rng, prop, fault_rate=fr, invalid_rate=ir, only_valid=(prop == "C20"))
+        if rng.random() < 0.25:
+            c["cls"] = "valeq"
         yield c["stratum"], c
+    if prop != "C20":
+        # every argument shape the checks-on setter accepts, with the checks off
+        N = lambda i: ["N", i]   # noqa: E731
+        NO = ["None"]
+        shapes = [["SetChildren", 0, cont, [], ft] for cont in ("list", "tuple", "set") for ft in ("none", "post")]
+        shapes += [["SetChildren", 0, cont, args, "none"] for cont in ("list", "tuple")
+                   for args in ([N(1), N(2)], [N(1), NO], [NO, N(1)], [NO, NO])]
+        for k, sh in enumerate(shapes):
+            ops = [["SetChildren", 0, "list", [N(1), N(2)], "none"], sh, ["SetParent", 3, N(0), "none", "set"],
+                   ["SetLeft", 0, N(4), "none"], ["DelChildren", 0], ["SetRight", 0, N(2), "none"]]
+            yield "noassert/shapes", {"assert": False, "n": 5, "prefix": [], "branches": [ops], "stratum": "noassert/shapes"}
 
 
 def shrink_candidates(prop, case):
@@ -1105,13 +1161,16 @@ def rule(prop):
             "constructor calls with left/right/parent/children combinations) over a BinaryNode subclass whose documented hooks read the "
             ".children/.left/.right/.parent of every node involved, inject pre/post faults, and in 30% of the cases also re-assign "
             "(benignly, re-entrantly) the children every involved node already has; entry points: parent setter, append, >>, <<, extend, "
-            "children setter (list/tuple/one-element set/non-sequence), left/right setters, children deleter, sort(key[, reverse]), "
+            "children setter (list/tuple/empty or one-element set/dict view/generator; the same tuple object re-used), left/right setters, children deleter, sort(key[, reverse]), "
             "constructor; strata: op mix (mixed/slots/parent/full/alloc) incl. None slots, wrong lengths, non-nodes (truthy: object, 1, True, "
             "'x', Node, BaseNode; falsy: 0, '', False, 0.0, (), [], {}), loops, duplicates, full parents, the same call repeated; every list "
             "argument is ONE caller-owned list object per history, overwritten in place after each call (an implementation that keeps or "
             "writes it is flagged); every run: every state reachable on 2 and 3 nodes x every operation (thorough: also 4 nodes); observed "
             "after every step, for every node: parent, node.children, node.left, node.right (exception or a non-node value distinguishable), "
-            "accepted/rejected; non-trivial = >=2 accepted ops and >=1 linked node (C02: >=1 accepted and >=1 rejected/failing op); C20: no "
+            "accepted/rejected; non-trivial = >=2 accepted ops and >=1 linked node (C02: >=1 accepted and >=1 rejected/failing op); "
+            "20% of the C11/C02 histories (check-valid ones, hook failures included) and a fixed set of accepted argument shapes ([], (), set(), "
+            "None slots) run with BIGTREE_CONF_ASSERTIONS=\"\" in the child interpreter against the model under assertions := false; 25% of "
+            "the histories use a subclass with __eq__/__hash__ by (distinct) name; C20: no "
             "check-rejected ops but pre/post hook failures on ~15% of the ops (same fault queue in both interpreters), each case additionally run in a child interpreter with BIGTREE_CONF_ASSERTIONS=\"\" and a battery of "
             "library calls (in/pre/post/level/zigzag iterators, descendants, leaves, max_depth, diameter, print_tree, tree_to_dict, "
             "tree_to_nested_dict, clone_tree, copy, prune_tree, get_subtree, name/val/attributes/is_leaf/depth/path_name/siblings) compared "
@@ -1140,6 +1199,9 @@ def partial_clauses(prop):
         "read only through the public getters",
         "binary: constructor: a FALSY non-node as left/right together with explicit children is not generated (the constructor's "
         "mismatch test is truthiness-based; the model's non-node is truthy there)",
+        "binary: user subclasses: value-equal twins (__eq__/__hash__ by name with EQUAL names) and subclasses whose instances can be "
+        "falsy (__len__/__bool__) are not generated: the unchanged setters are identity-/truthiness-sensitive there (reported witnesses); "
+        "only a value-semantics subclass with pairwise distinct names is exercised",
         "binary: a write to the caller's list is reported by flipping the observed accept/reject bit (reported as a correspondence "
         "failure, not as a false property predicate)",
     ]
